@@ -350,6 +350,31 @@ def main():
         out["cases"].append({"tape": rec.tape, "end": e_idx, "g": g, "x": x0, "grad": int(grad),
                              "log": log, "jvp": int(tan) if exact(tan) else None, "src": src,
                              "kind": "program" if is_prog else "tape"})
+    # a path through an argument position that has NO rule must raise; it is never dropped from the sum
+    from autograd.extend import primitive as _p3, defvjp as _dv3
+    from autograd.core import make_vjp as _mv3
+
+    @_p3
+    def part(a, b, c, d):
+        return 2.0 * a + 3.0 * b + 5.0 * c + 7.0 * d
+    _dv3(part, lambda ans, a, b, c, d: lambda g: 2.0 * g, None, lambda ans, a, b, c, d: lambda g: 5.0 * g)   # no rule for d
+    for traced in ([0, 1, 2, 3], [0, 2, 3], [3], [2, 3], [0, 3], [0, 1, 2], [0, 2], [1]):
+        def f(x, traced=traced):
+            a = [x * (i + 1.0) if i in traced else float(i + 1) for i in range(4)]
+            return part(*a) + x
+        dist("partial-rules traced=%s" % traced)
+        want = 1.0 + sum({0: 2.0, 1: 0.0, 2: 5.0}[i] * (i + 1.0) for i in traced if i != 3)
+        try:
+            vjp, _ = _mv3(f, 1.5)
+            got = vjp(1.0)
+            ok = (3 not in traced) and float(got) == want
+            if not ok:
+                out["errors"].append({"kind": "partial-rules", "traced": traced, "got": float(got),
+                                      "error": "a traced argument in a position without a rule did not raise: gradient %r returned%s"
+                                               % (float(got), "" if 3 in traced else " (expected %r)" % want)})
+        except Exception as ex:
+            if 3 not in traced:
+                out["errors"].append({"kind": "partial-rules", "traced": traced, "error": "raised although every traced position has a rule: %r" % (ex,)})
     # direct calls of autograd.util.toposort on explicit parent lists
     for i in range(cfg["n_topo"]):
         n = rng.randint(1, cfg["size"])
